@@ -70,9 +70,13 @@ pub fn call_entry(entry: &str, input: &[u8]) -> Result<String, String> {
             }
             Err(_) => "err".into(),
         }),
-        "mnemonic-random" => catch(|| match Mnemonic::random(Language::English, as_usize()) {
-            Ok(m) => format!("ok:{}", m.mnemonic_length()),
-            Err(_) => "err".into(),
+        "mnemonic-random" => catch(|| {
+            #[allow(irrefutable_let_patterns)]
+            let Ok(n) = as_usize().try_into() else { return "err".to_string() };
+            match Mnemonic::random(Language::English, n) {
+                Ok(m) => format!("ok:{}", m.mnemonic_length()),
+                Err(_) => "err".into(),
+            }
         }),
         "path" => catch(|| match text.parse::<hdk::Path>() {
             Ok(p) => {
@@ -359,8 +363,29 @@ fn valid_input(entry: &str, u: &mut U) -> Vec<u8> {
             let n = if u.ratio(2, 3) { 32 } else { u.below(40) };
             format!("{}{}", ["0x", "", "0X"][u.below(3)], hex_lower(&u.bytes(n))).into_bytes()
         }
-        "transaction" => match u.below(8) {
+        "transaction" => match u.below(9) {
             0 => nested_json(u),
+            8 => {
+                // legacy transactions with a chain id around the largest value whose EIP-155 v fits 256 bits
+                use crate::refimpl::u256::Big;
+                let cm = crate::refimpl::tx::c_max();
+                let c = match u.below(8) {
+                    0 => cm.sub(&Big::from_u128(1)).unwrap(),
+                    1 => cm.clone(),
+                    2 | 3 => cm.add_small(1),
+                    4 => cm.add_small(2),
+                    5 => Big::pow2(255),
+                    6 => Big::pow2(256).sub(&Big::from_u128(1)).unwrap(),
+                    _ => cm.add_small(u.below(40) as u32),
+                };
+                let spelled = match u.below(4) {
+                    0 => format!("\"{}\"", c.to_dec()),
+                    1 => format!("\"0x{}\"", c.to_hex()),
+                    2 => format!("\"+{}\"", c.to_dec()),
+                    _ => format!("\"0x{}\"", c.to_hex().to_uppercase()),
+                };
+                format!("{{\"nonce\":{},\"gasPrice\":1,\"gas\":21000,\"value\":0,\"data\":\"0x\",\"chainId\":{spelled}}}", u.below(50)).into_bytes()
+            }
             _ => crate::gen::txgen::gen_case(u, 80).doc.into_bytes(),
         },
         "typeddata" => match u.below(8) {
